@@ -92,6 +92,10 @@ def check_split_case(pid, pattern, sr, aw, sw, ch, min_dur, max_dur, max_sil, dr
     try:
         if via == "region":
             regs = list(AudioRegion(data, sr, sw, ch).split(**kw))
+        elif via == "region+kwargs":
+            # audio-parameter keywords given next to a region input must not override the region's own format
+            regs = list(AudioRegion(data, sr, sw, ch).split(sampling_rate=sr * 2 + 1, sample_width=(2 if sw != 2 else 1),
+                                                            channels=ch + 1, **kw))
         else:
             regs = list(split(data, sr=sr, sw=sw, ch=ch, **kw))
     except ValueError as e:
@@ -140,8 +144,10 @@ def search_C05_C06(pid, budget):
             fail(pid, "split-args", "no ValueError", args=[mn, mx, ms, aw])
         except ValueError:
             pass
-    for (sr, aw) in ((10, 0.1), (1000, 0.01), (100, 0.05), (10, 0.25), (22050, 0.05), (50, 0.02), (1, 1)):
-        for (mn, mx, ms) in durs:
+    for (sr, aw) in ((10, 0.1), (1000, 0.01), (100, 0.05), (10, 0.25), (22050, 0.05), (50, 0.02), (1, 1),
+                     (48000, 1024 / 48000), (48000, 256 / 48000), (3, 1 / 3)):
+        wdurs = [(10 * aw, 10 * aw, 0.0), (4 * aw, 9 * aw, 2 * aw), (3 * aw, 3 * aw, aw)] if aw not in (0.1, 0.01, 0.05, 0.25, 0.02, 1) else []
+        for (mn, mx, ms) in durs + wdurs:
             if mn < aw / 2 and mx < aw:
                 continue
             for (sw, ch) in ((2, 1), (1, 2), (4, 3)):
@@ -149,7 +155,7 @@ def search_C05_C06(pid, budget):
                     for tail in (0, 1):
                         if tail and int(aw * sr) < 2:
                             continue
-                        for via in ("bytes", "region"):
+                        for via in ("bytes", "region", "region+kwargs"):
                             for pat in pats[(n % 7)::7][:6]:
                                 n += 1
                                 check_split_case(pid, pat, sr, aw, sw, ch, mn, mx, ms, drop, strict, tail and 1, via)
@@ -407,6 +413,21 @@ def search_C10_C19(pid, budget):
                                 got, tail = read_all(r)
                             except Exception as e:  # noqa
                                 fail(pid, "reader", "raised %s: %s" % (type(e).__name__, e), **info)
+                            # reads attempted before open() must raise and must not disturb the framing afterwards
+                            from auditok.io import AudioIOError as _AIOE
+                            inp2 = data if kind == "bytes" else BufferAudioSource(data, sr, sw, ch)
+                            r3 = AudioReader(inp2, block_dur=bd, hop_dur=hd, max_read=mr, record=rec, **kw)
+                            for _ in range(2):
+                                try:
+                                    if r3.read() is not None:
+                                        fail(pid, "reader", "read() before open() returned data", **info)
+                                except (_AIOE, IOError):
+                                    pass
+                            r3.open()
+                            got3, tail3 = read_all(r3)
+                            if got3 != exp or any(t is not None for t in tail3):
+                                fail(pid, "reader", "after failed reads on the closed reader, open() + reads give blocks %r; expected %r" % (
+                                    [len(b) for b in got3], [len(b) for b in exp]), **info)
                             if got != exp or any(t is not None for t in tail):
                                 fail(pid, "reader", "blocks of %r bytes then %r; expected %r then None" % (
                                     [len(b) for b in got], tail, [len(b) for b in exp]), **info)
@@ -626,6 +647,12 @@ def search_C18(pid, budget):
                     n += 1
                     if arr.shape != (ch, ns) or not (arr == ref).all():
                         fail(pid, "numpy", "numpy export differs from signed little-endian decode", fmt=[sr, sw, ch], nsamples=ns)
+                    arr /= 3.0
+                    arr -= 1
+                    again = np.asarray(reg)
+                    if again.shape != (ch, ns) or not (again == ref).all():
+                        fail(pid, "numpy", "a second export after modifying the first one in place no longer holds the sample values",
+                             fmt=[sr, sw, ch], nsamples=ns)
                 if time.time() - t0 > budget:
                     return n
     finally:
